@@ -18,6 +18,7 @@
 package tsdb
 
 import (
+	"errors"
 	"fmt"
 	"io"
 	"sort"
@@ -194,23 +195,29 @@ func (s *shard) MemIndexDB() memdb.IndexDatabase {
 
 func (s *shard) GetOrCrateDataFamily(familyTime int64) (DataFamily, error) {
 	segmentName := s.interval.Calculator().GetSegment(familyTime)
-	// source segment
-	segment, err := s.segment.GetOrCreateSegment(segmentName)
-	if err != nil {
-		return nil, err
-	}
-	// build rollup target segment if set auto rollup interval
-	for interval, rollupSegment := range s.rollupTargets {
-		_, err = rollupSegment.GetOrCreateSegment(interval.Calculator().GetSegment(familyTime))
+	for retry := 0; ; retry++ {
+		// source segment
+		segment, err := s.segment.GetOrCreateSegment(segmentName)
 		if err != nil {
 			return nil, err
 		}
+		// build rollup target segment if set auto rollup interval
+		for interval, rollupSegment := range s.rollupTargets {
+			_, err = rollupSegment.GetOrCreateSegment(interval.Calculator().GetSegment(familyTime))
+			if err != nil {
+				return nil, err
+			}
+		}
+		family, err := segment.GetOrCreateDataFamily(familyTime)
+		if errors.Is(err, errSegmentClosed) && retry < 3 {
+			// the segment was evicted(it had no family yet) after we got it, the interval segment hands out a new one
+			continue
+		}
+		if err != nil {
+			return nil, err
+		}
+		return family, nil
 	}
-	family, err := segment.GetOrCreateDataFamily(familyTime)
-	if err != nil {
-		return nil, err
-	}
-	return family, nil
 }
 
 func (s *shard) GetDataFamilies(intervalType timeutil.IntervalType, timeRange timeutil.TimeRange) []DataFamily {
